@@ -143,6 +143,7 @@ impl<'a> Minimiser<'a> {
                     Box::new(|s| s.fail_on_timeout = false),
                     Box::new(|s| s.mailbox = None),
                     Box::new(|s| s.stopped_yields = 0),
+                    Box::new(|s| s.cfg_order = 0),
                     Box::new(|s| {
                         if let Some(st) = s.stream.as_mut() {
                             st.script.pop();
